@@ -319,8 +319,49 @@ def render(facts):
     return "\n".join(lines) + "\n"
 
 
+DEFAULTS = os.path.join(os.path.dirname(os.path.abspath(__file__)), "facts_default.json")
+
+
+def render_driver(facts):
+    """the same facts for the model driver; a fact whose pattern no longer matches takes the value it has on the pinned tree, so
+    that the driver still builds (the theorems over SourceFacts break) and the model goes on answering as the pinned code would:
+    the search for a concrete failing input can then run"""
+    defaults = json.load(open(DEFAULTS)) if os.path.exists(DEFAULTS) else {}
+    lines = ["/- GENERATED by tools/extract_facts.py — the facts as the model driver uses them; do not edit. -/",
+             "namespace Cst.DriverFacts"]
+    unknown = []
+    for k in sorted(facts):
+        v = facts[k]
+        if v is None:
+            unknown.append(k)
+            v = defaults.get(k)
+            if v is None:
+                v = 0
+        ty, val = lean_value(v)
+        lines.append(f"def {k} : {ty} := {val}")
+    lines.append("def unknownFacts : List String := [" + ", ".join('"%s"' % u for u in unknown) + "]")
+    lines.append("end Cst.DriverFacts")
+    return "\n".join(lines) + "\n"
+
+
+def write_if_changed(path, text):
+    old = None
+    if os.path.exists(path):
+        with open(path) as f:
+            old = f.read()
+    if old != text:
+        with open(path, "w") as f:
+            f.write(text)
+    return old != text
+
+
 def main():
     facts, notes = extract()
+    if "--write-defaults" in sys.argv:
+        assert all(v is not None for v in facts.values()), "defaults are taken from a tree on which every pattern matches"
+        with open(DEFAULTS, "w") as f:
+            json.dump(facts, f, indent=1, sort_keys=True)
+            f.write("\n")
     text = render(facts)
     out = os.path.normpath(OUT)
     old = None
@@ -330,6 +371,7 @@ def main():
     if old != text:
         with open(out, "w") as f:
             f.write(text)
+    write_if_changed(os.path.join(os.path.dirname(out), "DriverFacts.lean"), render_driver(facts))
     json.dump({"facts": facts, "changed": old != text}, sys.stdout, indent=1, sort_keys=True)
     print()
 
